@@ -56,6 +56,9 @@ def generate(seed, tier):
         for field in fields:
             field["empty"] = True
         alphabet = alphabet[:-1] + [""]
+    if key_count >= 2 and swarm.random() < 0.2:
+        # field names are case-sensitive: k0 and K0 are two fields
+        fields[1]["name"] = "K0"
     fields.append({"name": "n", "type": "Integer", "rule": "0{sep}9", "width": 1})
     checks = []
     kinds = swarm.choice([["IsUnique"], ["DistinctCount"], ["IsUnique", "DistinctCount"], ["IsUnique", "DistinctCount"],
